@@ -52,6 +52,8 @@ def parse_string(
     error_handler = ErrorHandler(file_path, used_in_extension)
     error_listener = SyntaxErrorListener(token_stream, error_handler)
     parser.addErrorListener(error_listener)
+    # characters that no lexer rule matches must be reported, not dropped
+    lexer.addErrorListener(error_listener)
 
     tree = parser.program()
 
